@@ -209,7 +209,7 @@ LEVEL_TEXT = ("Machine-checked theorems about the library's TLS glue (Read/Write
               "after init_finished under the engine contract) and an engine error always surfaces as an exception with zero bytes, "
               "sticky; the POLLOUT protocol invariant (queued data is always armed or remembered as suppressed, restored after the "
               "handshake); Write's count/retry-same-buffer discipline; Read's bounds; no stale WANT_READ/WANT_WRITE across calls and no "
-              "round-limit cut of a long Send after the handshake. The three pre-fix variants (319faf2, e3dfab5, ee81033) are kept as "
+              "round-limit cut of a long Send after the handshake; Shutdown (the destructor's orderly close) reads the peer's input whenever the first SSL_shutdown is incomplete or fails - 1..handshakeStepsMax reads, every delivery followed by another read - so that the close is not turned into a reset that discards sent data (shutdown_reads_before_close; tied to the translated Shutdown by tie_Shutdown, DESIGN 0.22). The three pre-fix variants (319faf2, e3dfab5, ee81033) are kept as "
               "Legacy configurations with proved violations. Completion of the handshake is proved for the real glue model composed "
               "twice over two FIFO channels with a reference handshake engine (handshake_completes_partial: both endpoints synchronous, "
               "timeout 0, polling schedule [c.Send, s.Receive, s.Send, c.Receive], every flight size, payload, receive size and wire "
